@@ -533,8 +533,9 @@ def finish(res: Result, lean: LeanStatus | None, t0: float) -> int:
         "wall_s": round(time.time() - t0, 2),
         "violations": len(new) + (1 if (unproved and not new) else 0),
     }
-    evd = VERIF / "evidence"
-    evd.mkdir(exist_ok=True)
+    # mutation testing against a scratch worktree (VERIF_REPO) must never overwrite the evidence of /repo itself
+    evd = VERIF / "evidence" if str(REPO) == "/repo" else VERIF / ".cache" / "dev-evidence"
+    evd.mkdir(parents=True, exist_ok=True)
     (evd / f"{pid}.json").write_text(json.dumps(ev, indent=1, default=str) + "\n")
     return status
 
